@@ -12,20 +12,25 @@ CONSTANTS MaxFields,
           Spell         \* TRUE: also enumerate the spelling knobs
 VARIABLE sd
 
-FieldPool == {"NAME", "LEVEL", "COUNT"}
+FieldPool == {"NAME", "LEVEL", "COUNT", "MODE"}
 (* chains are written with the ASCII alias & of the constraint operator; the harness copies them into the schema document *)
-ChainOf(f) == CASE f = "NAME" -> "REQ&TYPE[STRING]" [] f = "LEVEL" -> "OPT&ENUM[low,high,higher]" [] OTHER -> "REQ&TYPE[NUMBER]&RANGE[1,10]"
+ChainOf(f) == CASE f = "NAME" -> "REQ&TYPE[STRING]" [] f = "LEVEL" -> "OPT&ENUM[low,high,higher]"
+                [] f = "MODE" -> "OPT&ENUM[Low,LOW,low,HIGH]"          \* three members differ in case only
+                [] OTHER -> "REQ&TYPE[NUMBER]&RANGE[1,10]"
 Required(f) == f \in {"NAME", "COUNT"}
 AllStates == {"ok", "ok2", "bad", "missing", "null", "dup_ok_last", "dup_bad_last", "ambig", "casefold", "casefold2",
-              "numstr", "numstr_out", "numbad", "numover", "numfloat", "numbig", "dup_numstr", "dup_casefold", "numedge", "numedge_ok"}
+              "numstr", "numstr_out", "numbad", "numover", "numfloat", "numbig", "dup_numstr", "dup_casefold", "numedge", "numedge_ok",
+              "casefold3", "casefold1"}
 Applicable(f, st) ==
   CASE st \in {"ambig", "casefold", "casefold2", "dup_casefold"} -> f = "LEVEL"
+    [] st \in {"casefold3", "casefold1"} -> f = "MODE"
+    [] f = "MODE" -> st \in {"ok", "bad", "missing", "null"}
     [] st \in {"numstr", "numstr_out", "numbad", "numover", "numfloat", "numbig", "dup_numstr", "numedge", "numedge_ok"} -> f = "COUNT"
     [] OTHER -> TRUE
 (* the OCTAVE text of the value(s) written for a field in a state (two texts = the key is written twice) *)
-Ok(f)  == CASE f = "NAME" -> "\"some name\"" [] f = "LEVEL" -> "high" [] OTHER -> "5"
+Ok(f)  == CASE f = "NAME" -> "\"some name\"" [] f = "LEVEL" -> "high" [] f = "MODE" -> "LOW" [] OTHER -> "5"
 Ok2(f) == CASE f = "NAME" -> "\"True\"" [] f = "LEVEL" -> "low" [] OTHER -> "10"
-Bad(f) == CASE f = "NAME" -> "42" [] f = "LEVEL" -> "nope" [] OTHER -> "11"
+Bad(f) == CASE f = "NAME" -> "42" [] f = "LEVEL" -> "nope" [] f = "MODE" -> "nope" [] OTHER -> "11"
 ValueTexts(f, st) ==
   CASE st = "ok" -> <<Ok(f)>> [] st = "ok2" -> <<Ok2(f)>> [] st = "bad" -> <<Bad(f)>> [] st = "missing" -> <<>>
     [] st = "null" -> <<"null">> [] st = "dup_ok_last" -> <<Bad(f), Ok(f)>> [] st = "dup_bad_last" -> <<Ok(f), Bad(f)>>
@@ -33,6 +38,8 @@ ValueTexts(f, st) ==
     [] st = "numstr" -> <<"\"7\"">> [] st = "numstr_out" -> <<"\"11\"">> [] st = "numbad" -> <<"\"7x\"">>
     [] st = "numover" -> <<"\"1e400\"">> [] st = "numbig" -> <<"\"9007199254740993\"">>
     [] st = "dup_numstr" -> <<"\"7\"", "\"7\"">> [] st = "dup_casefold" -> <<"HIGH", "HIGH">>
+    [] st = "casefold3" -> <<"lOw">>          \* matches Low, LOW and low when case is ignored: ambiguous, must stay as written
+    [] st = "casefold1" -> <<"high">>         \* matches only HIGH when case is ignored
     [] st = "numedge" -> <<"10.000000000000002">>        \* the float next above the bound: out of RANGE[1,10] as long as no digit is lost
     [] st = "numedge_ok" -> <<"9.999999999999998">>      \* the float next below it
     [] OTHER (* numfloat *) -> <<"\"2.5\"">>
@@ -71,7 +78,7 @@ UnknownIsWarning(c) == c.unknown /\ c.policy = "WARN"
 ExpectedStatus(c) == IF MustError(c) # {} \/ UnknownIsError(c) THEN "INVALID" ELSE "VALIDATED"
 
 (* what a schema repair (fix on) may turn the value of a field into: "same" = it must stay as written *)
-RepairOf(st) == CASE st \in {"casefold", "dup_casefold"} -> "high" [] st = "casefold2" -> "low"
+RepairOf(st) == CASE st \in {"casefold", "dup_casefold"} -> "high" [] st = "casefold2" -> "low" [] st = "casefold1" -> "HIGH"
                   [] st \in {"numstr", "dup_numstr"} -> "7" [] st = "numstr_out" -> "11" [] st = "numfloat" -> "2.5"
                   [] st = "numbig" -> "9007199254740993"
                   [] OTHER -> "same"           \* incl. numbad ("7x"), numover ("1e400": not finite), ambig, bad, null, missing
